@@ -670,6 +670,9 @@ class World(BaseWorld):
             self.fail("unexpected_exception", "%s: %s: %s" % (where, type(e).__name__, e))
             return "exc"
         self.check_untouched(set(), where)
+        if res is A.obj or res is B.obj:
+            self.fail("operand_changed", "%s returned one of its operands itself instead of a new object" % where)
+            return "alias"
         tn = type(res).__name__
         allowed = {s.t for s in (A, B) if s.is_model}
         if tn not in allowed:
@@ -832,6 +835,9 @@ class World(BaseWorld):
         if type(res).__name__ != A.t:
             self.fail("wrong_result_type", "%s returned %s" % (where, type(res).__name__))
             return "badtype"
+        if not op["inplace"] and res is A.obj:
+            self.fail("operand_changed", "%s returned its operand itself instead of a new object (later in-place edits of the result would change the operand)" % where)
+            return "alias"
         if op["inplace"]:
             A.obj, A.shadow = res, want
             self.check_written(a, where)
